@@ -265,11 +265,55 @@ func runC06(c *Ctx) {
 			return ok, fmt.Sprintf("multimedia response carries %s; expected the multimedia ID parsed from the request (u32be(jtMsg.Body@0))", a.Render(m))
 		})
 	}
+	// ---- 2b. the handlers whose reply is computed from parsed fields parse this request only: each connection keeps
+	//      one handler object per message type and re-parses into it, so a field that survives from the previous
+	//      request (a reset dropped on some path) makes the reply depend on the connection's history
+	{
+		R.Rules["E2.field"] = "every field that the parser of a reply-computing handler (own ReplyBody: 0x0100, 0x0102, 0x0801) writes on some path is written from this request on every successful path: the reply does not depend on what the same connection sent before"
+		R.Rules["E2.branch"] = "no branch of such a parser depends on a field it writes itself before this call has written it"
+		var entries []*ssa.Function
+		for _, tn := range []string{"T0x0100", "T0x0102", "T0x0801"} {
+			rb := c.P.Method("protocol/model", tn, "ReplyBody")
+			ps := c.P.Method("protocol/model", tn, "Parse")
+			if rb == nil || ps == nil {
+				R.Fatal("anchor %s.ReplyBody / Parse not found", tn)
+				continue
+			}
+			entries = append(entries, ps)
+		}
+		recvs := map[*ssa.Function]map[int]string{}
+		res := c.RunE1(entries, false, func(a *absint.Analyzer, fn *ssa.Function, st *absint.State, args []absint.Term) {
+			preJTMsg(a, fn, st, args)
+			a.TrackObj(st, args[0], fn.Params[0].Type())
+			c.mu.Lock()
+			recvs[fn] = map[int]string{args[0].(*absint.Ptr).Obj.ID: ""}
+			c.mu.Unlock()
+		})
+		for _, r := range res {
+			for _, u := range dedupe(r.Undecided) {
+				R.Add("E1.undecided", shortFn(r.Fn)+" / "+u, "", report.Undecided, u)
+			}
+			c.e2EvaluateObjs(r, recvs[r.Fn])
+		}
+		R.Require("E2.field", 6, "")
+	}
 	// ---- 3. serial per write / addressing, in every service function that writes to the socket
 	curSeq := c.P.Method("service", "connection", "curSeq")
 	ri := c.serviceRoles()
+	cw := c.connWrites()
+	{
+		var ws []string
+		for f := range cw.wrappers {
+			ws = append(ws, shortFn(f))
+		}
+		sort.Strings(ws)
+		R.Notes["socket_write_wrappers"] = ws
+	}
 	nWriters := 0
 	for _, fn := range c.RepoFuncs("service") {
+		if _, isWrapper := cw.wrappers[fn]; isWrapper {
+			continue // a call to it is the write (summarised)
+		}
 		var writes, seqs, encs []*ssa.Call
 		for _, b := range fn.Blocks {
 			for _, ins := range b.Instrs {
@@ -277,7 +321,7 @@ func runC06(c *Ctx) {
 				if !ok {
 					continue
 				}
-				if isConnWrite(ins) {
+				if cw.is(ins) {
 					writes = append(writes, call)
 				}
 				if call.Call.StaticCallee() == curSeq && curSeq != nil {
@@ -297,7 +341,7 @@ func runC06(c *Ctx) {
 		if len(seqs) != 1 || len(encs) != 1 || len(writes) != 1 {
 			ok, d = false, fmt.Sprintf("%d serial draws, %d Encode calls, %d socket writes (expected one of each)", len(seqs), len(encs), len(writes))
 		} else {
-			if !pathsFromMustHit(seqs[0], isConnWrite) {
+			if !pathsFromMustHit(seqs[0], cw.is) {
 				ok, d = false, "a path draws a platform serial and returns without writing a frame: the serial numbers on the wire get a gap"
 			}
 			// the serial is stored to header.PlatformSerialNumber before Encode; Encode's receiver is that header
@@ -316,7 +360,7 @@ func runC06(c *Ctx) {
 				ok, d = false, "the drawn serial is not stored into the PlatformSerialNumber of the header that is encoded"
 			}
 			// written bytes = Encode result
-			if ok && writes[0].Call.Args[len(writes[0].Call.Args)-1] != ssa.Value(encs[0]) {
+			if wd, _ := cw.site(writes[0]); ok && wd != ssa.Value(encs[0]) {
 				ok, d = false, "the bytes written to the socket are not the result of Header.Encode"
 			}
 		}
@@ -423,7 +467,7 @@ func runC06(c *Ctx) {
 						continue
 					}
 					n, _ := callMethodName(call)
-					if (n == "curSeq" || isConnWrite(ins)) && !(guard.Dominates(b) && len(guard.Preds) == 1) {
+					if (n == "curSeq" || cw.is(ins)) && !(guard.Dominates(b) && len(guard.Preds) == 1) {
 						ok, d = false, fmt.Sprintf("%s at %s is reached without HasReply() being true: messages that are themselves responses are answered", n, c.P.RelPos(ins.Pos()))
 					}
 				}
@@ -521,7 +565,7 @@ func runC06(c *Ctx) {
 						ok, d = false, "a message without handler is forwarded to the writer"
 					}
 				}
-				if isConnWrite(ins) {
+				if cw.is(ins) {
 					ok, d = false, "a message without handler is answered"
 				}
 			}
@@ -610,16 +654,109 @@ func (c *Ctx) perConnectionHandlers(mk *ssa.Function) {
 						}
 					}
 				}
+				_ = acceptBlock
 				ok, d := false, ""
 				hv := site.Call.Args[1]
-				if mkCall, isC := hv.(*ssa.Call); isC && mkCall.Call.StaticCallee() == mk {
-					if acceptBlock != nil && acceptBlock.Dominates(mkCall.Block()) && mkCall.Block() != acceptBlock || (acceptBlock == mkCall.Block() && acceptBlock != nil) {
-						ok = true
-					} else {
-						d = "the default handler table is created once, outside the accept loop: all connections share the same stateful handler objects (they parse into their receiver)"
+				// (1) the table is fresh per evaluation: a createDefaultHandle() result, possibly through helpers that
+				//     return one and local variables; (2) every such creation happens once per accepted connection
+				var creators []*ssa.Call
+				var fresh func(v ssa.Value, depth int) bool
+				fresh = func(v ssa.Value, depth int) bool {
+					if depth > 6 {
+						return false
 					}
-				} else {
-					d = fmt.Sprintf("the handler table handed to newConnection is %s, not a fresh createDefaultHandle() result of this accept: connections may share stateful handler objects", hv.String())
+					switch x := v.(type) {
+					case *ssa.Call:
+						sc := x.Call.StaticCallee()
+						if sc == nil {
+							return false
+						}
+						if sc == mk {
+							creators = append(creators, x)
+							return true
+						}
+						if !c.P.IsRepoFunc(sc) || len(sc.Blocks) == 0 {
+							return false
+						}
+						nRet := 0
+						for _, b := range sc.Blocks {
+							if ret, isR := b.Instrs[len(b.Instrs)-1].(*ssa.Return); isR && len(ret.Results) == 1 {
+								nRet++
+								if !fresh(ret.Results[0], depth+1) {
+									return false
+								}
+							}
+						}
+						return nRet > 0
+					case *ssa.Phi:
+						for _, e := range x.Edges {
+							if !fresh(e, depth+1) {
+								return false
+							}
+						}
+						return len(x.Edges) > 0
+					case *ssa.UnOp:
+						if al, isAl := x.X.(*ssa.Alloc); isAl {
+							n := 0
+							for _, ref := range *al.Referrers() {
+								if st, isSt := ref.(*ssa.Store); isSt && st.Addr == ssa.Value(al) {
+									n++
+									if !fresh(st.Val, depth+1) {
+										return false
+									}
+								}
+							}
+							return n > 0
+						}
+					case *ssa.ChangeType:
+						return fresh(x.X, depth+1)
+					}
+					return false
+				}
+				var perAccept func(call ssa.Instruction, depth int) bool
+				perAccept = func(call ssa.Instruction, depth int) bool {
+					if depth > 4 {
+						return false
+					}
+					H := call.Parent()
+					var ab *ssa.BasicBlock
+					for _, b := range H.Blocks {
+						for _, ins := range b.Instrs {
+							if c2, isC := ins.(*ssa.Call); isC {
+								if sc := c2.Call.StaticCallee(); sc != nil && strings.HasPrefix(sc.Name(), "Accept") {
+									ab = b
+								}
+							}
+						}
+					}
+					if ab != nil {
+						return ab.Dominates(call.Block())
+					}
+					n := cg.Nodes[H]
+					if n == nil || len(n.In) == 0 {
+						return false
+					}
+					for _, e := range n.In {
+						if e.Site == nil || !perAccept(e.Site, depth+1) {
+							return false
+						}
+					}
+					return true
+				}
+				switch {
+				case !fresh(hv, 0):
+					d = fmt.Sprintf("the handler table handed to newConnection is %s, not a fresh createDefaultHandle() result (directly or through a helper that returns one): connections may share stateful handler objects", hv.String())
+				default:
+					ok = true
+					for _, cr := range creators {
+						if !perAccept(cr, 0) {
+							ok = false
+							d = "the default handler table is created at " + c.P.RelPos(cr.Pos()) + ", which is not executed once per accepted connection (outside the accept loop): all connections share the same stateful handler objects (they parse into their receiver)"
+						}
+					}
+					if ok && !perAccept(site, 0) {
+						ok, d = false, "newConnection is not called once per accepted connection"
+					}
 				}
 				st := report.Discharged
 				if !ok {
